@@ -212,6 +212,11 @@ func (d *defaultFs) Put(ctx context.Context, src io.Reader) (PutRes, error) {
 	// check if this root key already exists AND is valid
 	found, overwrite := existsAndValidBlob(ctx, d.store.backend, d.pather(root), content, lg)
 
+	if found && !overwrite && !refreshBlob(ctx, d.store.backend, d.pather(root), lg) {
+		// the root key was there, but is no longer (or cannot be marked as in use): write it again
+		overwrite = true
+	}
+
 	if !found || overwrite {
 		if err = d.writeRootKey(ctx, root, content); err != nil {
 			return PutRes{Found: found}, err
